@@ -483,6 +483,9 @@ func exec(c px.Context, op string, args []sx.Sexp) (res core.Result) {
 	if op == "tsadd" {
 		return execTsAdd(c, args)
 	}
+	if op == "tsnest" {
+		return execTsNest(c, args)
+	}
 	if op == "tn" {
 		return execTn(args)
 	}
@@ -1098,6 +1101,7 @@ func nm(ns, name, a string) string { return fmt.Sprintf("(n %s %s %s)", ns, sx.S
 
 func gen(g *core.G) {
 	genTsAdd(g)
+	genTsNest(g)
 	// 1. exhaustive: all histories of length <= 3 (quick) / <= 4 (thorough) over a chain of three loaders,
 	//    the names {a, A, b} and the steps {load, def v1, def v2, has} × name + discover
 	var alphabet []string
